@@ -7,6 +7,7 @@ package vfpkg
 // PKI factory (DESIGN.md 3.4): generated once per process with gmsm smx509.
 
 import (
+	"encoding/asn1"
 	"crypto"
 	"crypto/ecdsa"
 	"crypto/ed25519"
@@ -46,6 +47,7 @@ type vfPKI struct {
 	SrvSigB, SrvEncB           Certificate // issued by untrusted root B
 	// client pairs
 	CliSig, CliEnc               Certificate // good, issued by A, EKU clientAuth
+	CliSigPrivEKU, CliEncPrivEKU Certificate // issued by A, in date; the extendedKeyUsage extension lists only a private OID
 	CliSigB, CliEncB             Certificate // issued by B
 	CliSigExpired, CliEncExpired Certificate
 	CliSigCodeSign, CliEncCodeSign Certificate // EKU codeSigning only
@@ -115,6 +117,7 @@ type vfLeafOpt struct {
 	eku       []x509.ExtKeyUsage
 	pub       crypto.PublicKey
 	priv      crypto.PrivateKey
+	unknownEKU []asn1.ObjectIdentifier // extended key usages outside the set the X.509 library knows
 }
 
 func (ca *vfCA) leaf(o vfLeafOpt) Certificate {
@@ -134,7 +137,7 @@ func (ca *vfCA) leaf(o vfLeafOpt) Certificate {
 	}
 	vfSerial++
 	tpl := &x509.Certificate{SerialNumber: big.NewInt(vfSerial), Subject: pkix.Name{CommonName: o.cn},
-		NotBefore: o.from, NotAfter: o.to, KeyUsage: ku, ExtKeyUsage: o.eku, DNSNames: o.dns}
+		NotBefore: o.from, NotAfter: o.to, KeyUsage: ku, ExtKeyUsage: o.eku, UnknownExtKeyUsage: o.unknownEKU, DNSNames: o.dns}
 	der, err := x509.CreateCertificate(rand.Reader, tpl, ca.cert, o.pub, ca.key)
 	if err != nil {
 		panic(err)
@@ -167,6 +170,9 @@ func vfGetPKI() *vfPKI {
 		p.CliSig, p.CliEnc = p.A.pair("cli", z, z, nil, cli)
 		p.CliSigB, p.CliEncB = p.B.pair("cli-b", z, z, nil, cli)
 		p.CliSigExpired, p.CliEncExpired = p.A.pair("cli-exp", vfT0.AddDate(-3, 0, 0), vfT0.AddDate(-2, 0, 0), nil, cli)
+		priv := []asn1.ObjectIdentifier{{1, 3, 6, 1, 4, 1, 55555, 7, 1}}
+		p.CliSigPrivEKU = p.A.leaf(vfLeafOpt{cn: "cli-priveku-sig", unknownEKU: priv})
+		p.CliEncPrivEKU = p.A.leaf(vfLeafOpt{cn: "cli-priveku-enc", enc: true, unknownEKU: priv})
 		p.CliSigCodeSign, p.CliEncCodeSign = p.A.pair("cli-cs", z, z, nil, []x509.ExtKeyUsage{x509.ExtKeyUsageCodeSigning})
 		rk, err := rsa.GenerateKey(rand.Reader, 2048)
 		if err != nil {
